@@ -49,6 +49,31 @@ def report(ctx, binpath, case, finding, searched):
     vlib.violation(ctx, obj, nofail=(kind != "concrete"))
 
 
+def report_monitor(ctx):
+    """last clause of C15 ("the failure is reported so that the replica is detached"): the real backend/remote
+    on top of the real rpc.Client against the real replica REST + rpc servers: an idle data connection is
+    dropped or corrupted by the replica's side; the failure must arrive on the backend's monitor channel (that
+    message makes Controller.monitoring detach the replica). Exploration, not a theorem."""
+    srv, log = vlib.harness_build("srv")
+    if not srv:
+        print("ERROR: harness does not build against the repository:\n" + log[-3000:])
+        sys.exit(2)
+    E = lambda op, **kw: dict(dict(k="eng", op=op), **kw)
+    cases = []
+    for mode in ("drop", "garbage"):
+        for idle in (50, 2500):
+            cases.append(dict(id=len(cases), ops=[E("create"), dict(k="attachmon", mode=mode, n=idle)]))
+    outs = vlib.run_harness(ctx, srv, cases, netns=True, tag="mon", workers=4, extra_args=[9502])
+    bad = [(c, outs[c["id"]]["obs"][-1]) for c in cases if outs[c["id"]]["obs"][-1]["res"] != "ok"]
+    if bad:
+        c, ob = bad[0]
+        vlib.violation(ctx, dict(property="C15", kind="a transport failure of the data connection is not reported on the backend's monitor channel",
+                                 harness="harness/cmd/srv (real remote.Factory.Create, real replica REST + rpc server)", ops=c["ops"], observed=ob),
+                       suffix="-monitor")
+    ctx.notes.append("monitor reporting (backend/remote.monitorPing over the real rpc client): %d cases, %d not reported; notes: %s"
+                     % (len(cases), len(bad), [outs[c["id"]]["obs"][-1].get("note", "") for c in cases]))
+
+
 def main(ctx, replay=None):
     ok, log = rpclib.ensure_compiled()
     proof = vlib.proof_layer(ctx) if ok else dict(ok=False, why=log, obligations=0, discharged=0, theorems=[])
@@ -70,6 +95,7 @@ def main(ctx, replay=None):
         sys.exit(1 if findings else 0)
 
     quick = ctx.tier == "quick"
+    report_monitor(ctx)
     cases = gen(ctx, quick)
     findings, cov, outs = rpclib.evaluate(ctx, binpath, cases)
     known = dict(vlib.load_known("C15"))
